@@ -830,7 +830,15 @@ type M4 map[string]MyI
 def go_file(decls, scen):
     out = [PREAMBLE, decls]
     for i, s in enumerate(scen):
-        out.append("func case%d() string {\n\tvar out []string\n\t%s\n\treturn strings.Join(out, \";\")\n}\n" % (i, "\n\t".join(s["go"])))
+        go = list(s["go"])
+        # the optic under test is shared between the callers of this case (harness `share`): the concurrent pass lets
+        # several goroutines use ONE optic value, each on a value of its own
+        for k, l in enumerate(go):
+            if l.startswith("l := ") or l.startswith("m := optics.") or l == "m := e0":
+                name = l.split(" ", 1)[0]
+                go.insert(k + 1, "%s = share(%d, %s)" % (name, i, name))
+                break
+        out.append("func case%d() string {\n\tvar out []string\n\t%s\n\treturn strings.Join(out, \";\")\n}\n" % (i, "\n\t".join(go)))
     out.append("var cases = []func() string{%s}\n" % ", ".join("case%d" % i for i in range(len(scen))))
     return "\n".join(out)
 
@@ -856,7 +864,39 @@ def run_batch(ctx, b, decls, scen):
     if binp is None:
         return None, err
     lines = [s["line"] for s in scen]
-    return run_cases(binp, lines)
+    impl, errs = run_cases(binp, lines)
+    if not ctx.replay:
+        run_shared(ctx, binp, scen, impl)
+    return impl, errs
+
+
+def run_shared(ctx, binp, scen, impl):
+    """the concurrent pass: every case again from G goroutines x R rounds at once, all through ONE optic value (harness
+    `share`), each call on a value of its own; the reference is the case's own sequential result. Only cases whose
+    sequential result is as expected are judged (a wrong optic is reported by the sequential pass)."""
+    g, r = (8, 2000) if ctx.thorough() else (8, 150)
+    try:
+        p = subprocess.run([binp, "par", str(g), str(r)], capture_output=True, timeout=600)
+    except subprocess.TimeoutExpired:
+        ctx.broken.append({"kind": "correspondence", "detail": "concurrent pass of the optics harness timed out"})
+        return
+    out = p.stdout.decode("utf-8", "backslashreplace").split("\n")
+    seen = 0
+    for l in out:
+        w = l.split(" ", 2)
+        if len(w) < 2 or not w[0].isdigit():
+            continue
+        i = int(w[0])
+        if i >= len(scen):
+            continue
+        seen += 1
+        ctx.hist("shared_optic_concurrent_pass", "%d goroutines x %d rounds" % (g, r))
+        if w[1] == "DIFF" and i < len(impl) and impl[i] == scen[i]["expect"]:
+            ctx.violations.append(vlib.Violation("impl", "a composed optic used by several goroutines at once, each on a value of its own, does not behave as it does alone "
+                                                 "(it keeps state between calls: foci of one value leak into another)",
+                                                 case=scen[i]["line"], expected=scen[i]["expect"], got=w[2] if len(w) > 2 else "", key={"kind": scen[i]["kind"], "class": "shared-optic"}))
+    if seen < len(scen) and p.returncode != 0:
+        ctx.broken.append({"kind": "correspondence", "detail": "concurrent pass of the optics harness died after %d of %d cases: %s" % (seen, len(scen), p.stderr.decode("utf-8", "backslashreplace")[-400:])})
 
 
 def run_cases(binp, lines, max_restarts=40, timeout=600):
